@@ -391,3 +391,26 @@ def k_negate(st, fr, rv):
         st.ex.push_fn(st, d['f'], d['args'], None, None)
         return
     return st.ex.native_return(st, fr, z3.simplify(z3.Not(rv)))
+
+
+@model('HashSet::intersection', 'BTreeSet::intersection')
+def m_set_intersection(c):
+    a = as_map(c.st, c.args[0])
+    b = as_map(c.st, c.args[1])
+    a.force(c.st)
+    b.force(c.st)
+    out = []
+    for x in a.keys:
+        if b.keys and c.st.branch(z3.Or([c.st.val_eq(x, y) for y in b.keys]), 'intersection member'):
+            out.append(new_cell_ptr(x))
+    return IterObj(out, 0, 'list')
+
+
+@model('HashSet::is_subset', 'BTreeSet::is_subset')
+def m_set_subset(c):
+    a = as_map(c.st, c.args[0])
+    b = as_map(c.st, c.args[1])
+    a.force(c.st)
+    b.force(c.st)
+    cs = [z3.Or([c.st.val_eq(x, y) for y in b.keys]) if b.keys else z3.BoolVal(False) for x in a.keys]
+    return z3.simplify(z3.And(cs)) if cs else z3.BoolVal(True)
